@@ -177,7 +177,10 @@ def _obj(tab, depth):
                 if depth <= 0:
                     fields.append(st.just([]))
                 else:
-                    fields.append(st.lists(_obj("op", depth - 1), max_size=4))
+                    # now and then a block long enough for a multi-byte
+                    # length prefix
+                    fields.append(st.one_of(*([st.lists(_obj("op", depth - 1), max_size=4)] * 7),
+                                            st.lists(_valid_obj("op", 0), min_size=40, max_size=90)))
             else:
                 fields.append(ints)
         return st.fixed_dictionaries(
@@ -217,7 +220,8 @@ def _valid_obj(tab, depth):
         fields = []
         for k in _kinds(tab, cls):
             if k == R.BLOCK:
-                fields.append(st.lists(_valid_obj("op", depth - 1), max_size=3)
+                fields.append(st.one_of(*([st.lists(_valid_obj("op", depth - 1), max_size=3)] * 7),
+                                        st.lists(_valid_obj("op", 0), min_size=40, max_size=90))
                               if depth > 0 else st.just([]))
             else:
                 fields.append(rng(k))
@@ -660,7 +664,11 @@ def _exhaustive_chunk(args):
         doms = []
         for k in kinds:
             if k == R.BLOCK:
-                doms.append([[], [{"cls": "OpBReg", "vals": [7, -8]}, {"cls": "OpDeref", "vals": []}]])
+                # (also blocks whose ULEB128 length prefix needs two and
+                # three bytes: 127/128 and 16383/16384 are the boundaries)
+                nop = {"cls": "OpDeref", "vals": []}   # any one-byte operation
+                doms.append([[], [{"cls": "OpBReg", "vals": [7, -8]}, {"cls": "OpDeref", "vals": []}],
+                             [nop] * 127, [nop] * 128, [nop] * 16384])
             else:
                 doms.append(_field_values(k, 8))
         if len(doms) == 2 and all(len(d) > 100 for d in doms):
